@@ -578,3 +578,256 @@ def run_ext_history(ops, work, tag, want_digests=False):
         os.remove(p)
     return {"ext": True, "steps": steps, "validations": im.validations, "final_validation": final_validation,
             "reopen_diffs": im.reopen_diffs, "digests": dig if want_digests else None, "roots": roots}
+
+
+# ============================================================================= drillhole-group histories (C09 oracle stream)
+def gen_dh_history(rng, length):
+    """two workspaces; drillhole groups whose names are drawn from a small pool (same-named groups happen), holes, depth data,
+    updates, removals, cross-workspace copies, listing getters; every op names its target group by ordinal"""
+    ops = []
+    groups, holes, data = [], [], []   # ordinals
+    n = [0]
+
+    def new():
+        n[0] += 1
+        return n[0] - 1
+
+    for _ in range(rng.range(1, 2)):
+        g = new()
+        groups.append(g)
+        ops.append({"op": "dh_group", "id": g, "name": f"dh{rng.below(2)}"})
+    while len(ops) < length:
+        w = rng.weighted([("dh_group", 8), ("hole", 20), ("data", 25), ("update", 12), ("rm_data", 6), ("rm_hole", 5),
+                          ("copy_ws", 8), ("listing", 10), ("reopen", 6)])
+        if w == "dh_group":
+            g = new()
+            groups.append(g)
+            ops.append({"op": "dh_group", "id": g, "name": f"dh{rng.below(2)}"})
+        elif w == "hole" and groups:
+            h = new()
+            holes.append(h)
+            ops.append({"op": "hole", "id": h, "group": rng.choice(groups), "seed": rng.below(1000)})
+        elif w == "data" and holes:
+            d = new()
+            data.append(d)
+            ops.append({"op": "hole_data", "id": d, "hole": rng.choice(holes), "name": rng.choice(["au", "cu"]), "n": rng.range(1, 4), "seed": rng.below(1000)})
+        elif w == "update" and data:
+            ops.append({"op": "dh_update", "data": rng.choice(data), "seed": rng.below(1000)})
+        elif w == "rm_data" and data:
+            ops.append({"op": "dh_rm", "e": rng.choice(data)})
+        elif w == "rm_hole" and holes:
+            ops.append({"op": "dh_rm", "e": rng.choice(holes)})
+        elif w == "copy_ws" and groups:
+            g = new()
+            ops.append({"op": "dh_copy", "id": g, "group": rng.choice(groups)})
+        elif w == "listing":
+            ops.append({"op": "dh_listing", "ws": rng.below(2), "kind": rng.choice(["types", "groups", "objects", "data"])})
+        elif w == "reopen":
+            ops.append({"op": "reopen"})
+    ops.append({"op": "reopen"})
+    return ops
+
+
+class DhImpl(ExtImpl):
+    def apply(self, op):
+        import gc
+
+        import numpy as np
+        from geoh5py import objects as O
+        from geoh5py.groups import DrillholeGroup
+
+        o = op["op"]
+        if o == "reopen":
+            return super().apply(op)
+        R = np.random.RandomState(op.get("seed", 0))
+        info = {"target": None, "ws": 0, "kind": o}
+        self.gone = getattr(self, "gone", set())          # ordinals removed (with their dependants): never operands again
+        self.names = getattr(self, "names", {})           # hole ordinal -> data names in use
+        self.copied = getattr(self, "copied", set())      # groups already copied to the other workspace
+        self.group_of = getattr(self, "group_of", {})
+        self.hole_of = getattr(self, "hole_of", {})
+        for k in ("group", "hole", "data", "e"):
+            if op.get(k) in self.gone:
+                return "skipped", info
+        try:
+            if o == "dh_group":
+                g = DrillholeGroup.create(self.ws[0], name=op["name"])
+                self.uid[op["id"]] = (0, g.uid)
+                info.update(target=g.uid, created=True)
+            elif o == "hole":
+                g = self.ent(op["group"])
+                if g is None:
+                    return "skipped", info
+                w = self.uid[op["group"]][0]
+                h = O.Drillhole.create(g.workspace, parent=g, name=f"h{op['id']}", collar=[float(op["id"]), 0.0, 0.0],
+                                       surveys=np.array([[0.0, 0.0, -90.0], [50.0, 0.0, -90.0]]))
+                self.uid[op["id"]] = (w, h.uid)
+                self.group_of[op["id"]] = op["group"]
+                info.update(target=g.uid, ws=w)
+            elif o == "hole_data":
+                h = self.ent(op["hole"])
+                if h is None:
+                    return "skipped", info
+                w = self.uid[op["hole"]][0]
+                n = op["n"]
+                if op["name"] in self.names.setdefault(op["hole"], set()):
+                    return "skipped", info
+                d = h.add_data({op["name"]: {"values": R.randint(0, 9, n).astype(float), "depth": np.arange(n) * 1.5}})
+                self.names[op["hole"]].add(op["name"])
+                self.uid[op["id"]] = (w, d.uid)
+                self.group_of[op["id"]] = self.group_of[op["hole"]]
+                self.hole_of[op["id"]] = op["hole"]
+                info.update(target=h.parent.uid, ws=w)
+            elif o == "dh_update":
+                d = self.ent(op["data"])
+                if d is None or d.values is None:
+                    return "skipped", info
+                w = self.uid[op["data"]][0]
+                info.update(target=d.parent.parent.uid, ws=w)
+                d.values = R.randint(0, 9, len(d.values)).astype(float)
+            elif o == "dh_rm":
+                e = self.ent(op["e"])
+                if e is None:
+                    return "skipped", info
+                w = self.uid[op["e"]][0]
+                g = e.parent if isinstance(e.parent, DrillholeGroup) else e.parent.parent
+                info.update(target=g.uid, ws=w)
+                e.workspace.remove_entity(e)
+                self.gone.add(op["e"])
+                self.gone |= {k for k, h in self.hole_of.items() if h == op["e"]}
+                if op["e"] in self.hole_of:
+                    self.names.get(self.hole_of[op["e"]], set()).discard(e.name)
+                del e, g
+            elif o == "dh_copy":
+                g = self.ent(op["group"])
+                if g is None or self.uid[op["group"]][0] != 0 or op["group"] in self.copied:
+                    return "skipped", info
+                self.copied.add(op["group"])
+                c = g.copy(parent=self.ws[1].root)
+                self.uid[op["id"]] = (1, c.uid)
+                info.update(target=c.uid, ws=1, created=True, copy=True)
+                del c, g
+            elif o == "dh_listing":
+                _ = getattr(self.ws[op["ws"]], op["kind"])
+                del _
+                info.update(ws=op["ws"], listing=True)
+            else:
+                raise ValueError(o)
+        finally:
+            gc.collect()
+        return "done", info
+
+
+def _type_refs(f):
+    """type identifiers referenced by entity Type links or by concatenated attribute records of an open file"""
+    import h5py
+
+    refs = set()
+    proj = f[list(f)[0]]
+    for cont in ("Groups", "Objects", "Data"):
+        for us in proj.get(cont, {}):
+            node = proj[cont][us]
+            if "Type" in node:
+                t = node["Type"].attrs.get("ID")
+                refs.add((t.decode() if isinstance(t, bytes) else str(t)).strip("{}").lower())
+            cd = node.get("Concatenated Data")
+            if isinstance(cd, h5py.Group):
+                for nm in ("Attributes", "Attributes Jsons"):
+                    if nm in cd:
+                        raw = cd[nm][()]
+                        txt = raw if isinstance(raw, (str, bytes)) else " ".join(x.decode() if isinstance(x, bytes) else str(x) for x in list(getattr(raw, "ravel", lambda: raw)()))
+                        txt = txt.decode() if isinstance(txt, bytes) else str(txt)
+                        import re
+
+                        refs.update(m.lower() for m in re.findall(r"[0-9a-fA-F]{8}-[0-9a-fA-F]{4}-[0-9a-fA-F]{4}-[0-9a-fA-F]{4}-[0-9a-fA-F]{12}", txt))
+    return refs
+
+
+def run_dh_history(ops, work, tag):
+    import os
+
+    im = DhImpl(work, tag)
+    steps = []
+    dig = [[file_digests(w.geoh5) for w in im.ws]]
+    refs = []
+    for op in ops:
+        try:
+            outc, info = im.apply(op)
+        except Exception as e:  # noqa: BLE001
+            import traceback
+
+            outc, info = f"error:{type(e).__name__}:{str(e)[:160]}", {"tb": traceback.format_exc()[-500:]}
+        info = {k: (str(v) if k == "target" and v is not None else v) for k, v in info.items()}
+        steps.append({"outcome": outc, "info": info})
+        if op["op"] == "reopen" and outc.startswith("error"):
+            break  # a workspace that cannot be closed / re-opened ends the history (reported by the oracle)
+        dig.append([file_digests(w.geoh5) for w in im.ws])
+        refs.append([sorted(_type_refs(w.geoh5)) for w in im.ws])
+    try:
+        im.close()
+    except Exception:  # noqa: BLE001
+        pass
+    for p in im.paths:
+        os.remove(p)
+    return {"dh": True, "steps": steps, "digests": dig, "type_refs": refs}
+
+
+def oracle_dh(case, obs):
+    """C09 on drillhole groups: an operation on a hole / its data changes, in its own file, only the node of the group that
+    stores them (+ types it introduces, or stops using); the other workspace's file is untouched; a cross-workspace copy
+    leaves the source file untouched; a listing getter may only delete types no stored entity refers to."""
+    fails = []
+    copied = set()       # groups that were copied to the other workspace
+    for i, (op, st) in enumerate(zip(case["ops"], obs["steps"])):
+        oc = str(st["outcome"])
+        if op["op"] == "dh_copy" and oc == "done":
+            copied.add(op["group"])
+        if oc.startswith("error"):
+            key = "dh-unexpected-exception"
+            if op["op"] == "reopen" and copied and any(o["op"] in ("dh_rm", "hole", "hole_data", "dh_update") for o in case["ops"][:i]):
+                # recorded defect: a cross-workspace copy of a drillhole group shares its concatenated attribute records with
+                # the source; an edit of the source shows through in the copy, whose file is then written inconsistently
+                key = "dh-copy-shares-state-with-source"
+            fails.append({"key": key, "what": f"op {i} {op}: {oc[:200]}"})
+            break
+        if oc != "done" or op["op"] == "reopen":
+            continue
+        info = st["info"]
+        w = info.get("ws", 0)
+        for fi in (0, 1):
+            before, after = obs["digests"][i][fi], obs["digests"][i + 1][fi]
+            changed = {p for p in set(before) | set(after) if before.get(p) != after.get(p)}
+            if not changed:
+                continue
+            tgt = "Groups/{%s}" % info["target"] if info.get("target") else None
+            allowed = set()
+            if fi == w and tgt:
+                allowed.add(tgt)
+                if info.get("created"):
+                    # the new group's node and the link under its parent (the root)
+                    allowed |= {p for p in changed if p.startswith("Groups/") and before.get(p, {}).get("content") == after.get(p, {}).get("content")}
+            bad = set()
+            known_target = False
+            for p in changed - allowed:
+                if p.startswith("Types/") and fi == w and p not in before:
+                    continue  # a type it introduces
+                if p.startswith("Types/") and p not in after:
+                    tid = p.rsplit("/", 1)[1].strip("{}").lower()
+                    if tid not in obs["type_refs"][i][fi]:
+                        continue  # a type nothing refers to any more
+                    if fi == 1:
+                        # recorded defect: the data types created in the target workspace by a cross-workspace copy of a
+                        # drillhole group are held by nothing (the data are loaded lazily) and are swept by the next listing
+                        known_target = True
+                        continue
+                    bad.add(p + " (deleted while still referenced)")
+                    continue
+                bad.add(p)
+            if known_target and not bad:
+                fails.append({"key": "dh-copy-target-types-swept", "what": f"op {i} {op}: data types still referenced by the copied group's concatenated data were deleted from the target file"})
+                return fails
+            if bad:
+                fails.append({"key": "dh-collateral-change" if fi == w else "dh-other-file-changed",
+                              "what": f"op {i} {op} (target {tgt}, ws {w}) changed in file {fi}: {sorted(bad)[:4]}"})
+                return fails
+    return fails
